@@ -642,7 +642,7 @@ func c19Alloc(c *Ctx, tag string, data []byte) {
 
 // ---------------------------------------------------------------- the generator
 
-func u32p(v uint32) *uint32 { return &v }
+func c19_u32p(v uint32) *uint32 { return &v }
 
 type c19Base struct {
 	tag    string
@@ -788,7 +788,7 @@ func genC19(c *Ctx) {
 		b := canonicalBase(p)
 		for i := range b.sig {
 			if b.sig[i].Tag == 269 {
-				b.sig[i].OvType = u32p(7)
+				b.sig[i].OvType = c19_u32p(7)
 			}
 		}
 		c19Emit(c, "corpus-sha1-bin", b.bytes(), SL{})
@@ -797,8 +797,8 @@ func genC19(c *Ctx) {
 		b = canonicalBase(p)
 		for i := range b.sig {
 			if b.sig[i].Tag == 268 {
-				b.sig[i].OvType = u32p(6)
-				b.sig[i].OvCount = u32p(1)
+				b.sig[i].OvType = c19_u32p(6)
+				b.sig[i].OvCount = c19_u32p(1)
 			}
 		}
 		c19Emit(c, "corpus-rsa-string", b.bytes(), SL{})
@@ -822,12 +822,12 @@ func genC19(c *Ctx) {
 		p := corpusPkg(nil)
 		for _, cnt := range []uint32{1 << 20, 1 << 22} {
 			b := canonicalBase(p)
-			b.main = append(b.main, hEntry{Tag: 1009, Type: 5, Count: 1, Data: be64(7), OvCount: u32p(cnt)})
+			b.main = append(b.main, hEntry{Tag: 1009, Type: 5, Count: 1, Data: be64(7), OvCount: c19_u32p(cnt)})
 			c19Alloc(c, "corpus-int64-count", b.bytes())
 		}
 		for _, tc := range [][2]uint32{{5, 0xffffffff}, {4, 0x7fffffff}, {1, 0xffffffff}, {5, 1 << 27}} {
 			b := canonicalBase(p)
-			b.main = append(b.main, hEntry{Tag: 1009, Type: 5, Count: 1, Data: be64(7), OvType: u32p(tc[0]), OvCount: u32p(tc[1])})
+			b.main = append(b.main, hEntry{Tag: 1009, Type: 5, Count: 1, Data: be64(7), OvType: c19_u32p(tc[0]), OvCount: c19_u32p(tc[1])})
 			addIsolated("corpus-huge-count", b.bytes())
 		}
 	}
@@ -1092,7 +1092,7 @@ func genC19(c *Ctx) {
 					route(tag, b.bytes(), entryAlloc(typ, cnt), SL{})
 				}
 				for t := uint32(0); t <= 10; t++ {
-					b, e := mut(func(e *hEntry, _ uint32) { e.OvType = u32p(t) })
+					b, e := mut(func(e *hEntry, _ uint32) { e.OvType = c19_u32p(t) })
 					emit("mut-type", b, e)
 				}
 				base := b0.sig
@@ -1101,21 +1101,21 @@ func genC19(c *Ctx) {
 				}
 				actual := base[ei].Count
 				for _, cv := range []uint32{0, 1, actual - 1, actual + 1, 0xffff, 0x7fffffff, 0xffffffff} {
-					b, e := mut(func(e *hEntry, _ uint32) { e.OvCount = u32p(cv) })
+					b, e := mut(func(e *hEntry, _ uint32) { e.OvCount = c19_u32p(cv) })
 					emit("mut-count", b, e)
 					if !c.Thorough() && bi >= 2 {
 						continue
 					}
 					// the same count under each type
 					for _, t := range []uint32{1, 3, 5, 6, 7, 8} {
-						b, e := mut(func(e *hEntry, _ uint32) { e.OvCount = u32p(cv); e.OvType = u32p(t) })
+						b, e := mut(func(e *hEntry, _ uint32) { e.OvCount = c19_u32p(cv); e.OvType = c19_u32p(t) })
 						emit("mut-type-count", b, e)
 					}
 				}
 				for _, k := range []int{0, 1, 2, 3, 4, 5, 6} {
 					b, e := mut(func(e *hEntry, off uint32) {
 						ov := []uint32{0, 1, off - 1, off + 1, 0xffff, 0x7fffffff, 0xffffffff}[k]
-						e.OvOff = u32p(ov)
+						e.OvOff = c19_u32p(ov)
 					})
 					emit("mut-offset", b, e)
 				}
